@@ -23,7 +23,9 @@ s = re.sub(r"Pattern of the misses.*?the bounds stayed exhaustive\.",
            "(no grouped IN-subquery, no expression ORDER BY key, comment texts too short, no column spelled like a table, no `CAST ... FORMAT`, "
            "one source name per alias, join kind x residual ON beyond the cost bound, no per-call `normalize=False`, construct pairs only in the base "
            "dialect, no wrapped option list, no user-defined type, only the bare equi-join condition, only `quoted=True` identifiers, no column-list "
-           "alias over a 3-branch set operation, no set-operation body in a scalar subquery) or in the *scheduling points* of C19 (chosen by function name; none while a module body executes) - never an oracle that was "
+           "alias over a 3-branch set operation, no set-operation body in a scalar subquery, no foreign dialect's keyword in unit position, no nested WITH named like a table, "
+           "no conditional with constant branches, every inner query always aliased, no chain of divisions, no two inputs that are equal as expressions but differ as text) or in the "
+           "*scheduling points / harness bodies* of C19 (chosen by function name; none while a module body executes; none in the callee that fills a published table; identity-only generation) - never an oracle that was "
            "too weak. The alphabets / point sets were widened accordingly; the bounds stayed exhaustive.", s, flags=re.S)
 open(p, "w").write(s)
 print(len(rows), "seeds,", n_missed, "missed at first")
